@@ -88,26 +88,52 @@ class SymDate:
 
 
 class Carrier(np.ndarray):
-    """object-dtype state array with the attributes beyond's functions read (date, frame, form, maneuvers ...)"""
+    """object-dtype state array with the attributes beyond's functions read (date, frame, form, maneuvers ...).
+    When `form` is a real beyond Form object, copy(form=...) walks the real Form graph through Form.__call__ and
+    element access by name (kep.a, sphe.r, kep.nu ...) follows the real param_names / alias table."""
+    _ATTRS = ("date", "frame", "form", "maneuvers", "propagator", "_extra")
+
     def __array_finalize__(self, obj):
-        for k in ("date", "frame", "form", "maneuvers", "propagator", "_extra"):
-            if not hasattr(self, k):
-                setattr(self, k, getattr(obj, k, None))
+        for k in Carrier._ATTRS:
+            if k not in self.__dict__:
+                self.__dict__[k] = getattr(obj, k, None) if obj is not None and hasattr(obj, "__dict__") else None
+
+    def _clone_meta(self, new):
+        for k in Carrier._ATTRS:
+            new.__dict__[k] = self.__dict__.get(k)
+        return new
 
     def copy(self, form=None, frame=None, same=False):
-        new = np.ndarray.copy(self).view(type(self))
-        for k in ("date", "frame", "form", "maneuvers", "propagator", "_extra"):
-            setattr(new, k, getattr(self, k, None))
+        new = self._clone_meta(np.ndarray.copy(self).view(type(self)))
         if form is not None and self.form is not None and _name(form) != _name(self.form):
-            conv = getattr(self, "_convert", None) or (self._extra or {}).get("convert")
-            if conv is None:
+            if hasattr(self.form, "steps"):
+                from beyond.orbits.forms import get_form
+                target = get_form(_name(form))
+                arr = self.form(self, target)
+                new = self._clone_meta(np.asarray(arr, dtype=object).view(type(self)))
+                new.form = target
+            else:
                 raise NotImplementedError(f"Carrier.copy(form={form}) from {self.form}")
-            arr = conv(self, _name(self.form), _name(form))
-            new = np.asarray(arr, dtype=object).view(type(self))
-            for k in ("date", "frame", "maneuvers", "propagator", "_extra"):
-                setattr(new, k, getattr(self, k, None))
-            new.form = form
+        if frame is not None and _name(frame) != _name(self.frame):
+            conv = (self._extra or {}).get("frame_convert")
+            if conv is None:
+                raise NotImplementedError(f"Carrier.copy(frame={frame}) from {self.frame}")
+            new = conv(new, frame)
         return new
+
+    def __getattr__(self, name):
+        if name.startswith("__") or name in Carrier._ATTRS:
+            raise AttributeError(name)
+        form = self.__dict__.get("form")
+        names = getattr(form, "param_names", None)
+        if names:
+            alt = getattr(type(form), "alt", {})
+            key = alt.get(name, name)
+            if key in names:
+                return self[names.index(key)]
+            if name in names:
+                return self[names.index(name)]
+        raise AttributeError(name)
 
 
 def _name(f):
@@ -122,3 +148,21 @@ def carrier(vals, date=None, frame=None, form="cartesian", maneuvers=(), **extra
     a.propagator = None
     a._extra = extra or None
     return a
+
+
+class FrameStub:
+    """frame with a centre body carrying symbolic mu (what forms / Infos / propagators read)"""
+    def __init__(self, name="EME2000", mu=None, **body):
+        self.name = name
+
+        class _NS:
+            pass
+        self.center = _NS()
+        self.center.name = "Earth"
+        self.center.body = _NS()
+        self.center.body.mu = self.center.body.µ = mu
+        for k, v in body.items():
+            setattr(self.center.body, k, v)
+
+    def __str__(self):
+        return self.name
